@@ -82,6 +82,8 @@ type Knobs struct {
 	PSideKey        int  // a constructor body provides, while it runs, a constructor for a fresh key that later operations may consume
 	PSide           int  // a constructor / decorator body calls String, Visualize, Scope, Provide or Decorate (of an unrelated key) on the container
 	PReenter        int  // C02: probability that a constructor body calls back into the container
+	WDecoSandwich   int  // C12: weight of the compound step "decorate above, resolve from below, decorate in between, resolve again"
+	PErr2           int  // a second error result (both non-nil when the function fails)
 	PReenterDeco    int  // C02: probability that a decorator body calls Invoke (for its own key or others)
 	PEmbedPos       int  // the embedded dig.In / dig.Out of a generated object is not its first field
 	PNamedSlice     int  // a group parameter / slice-typed group result is declared with a named slice type
@@ -113,16 +115,17 @@ func DefaultKnobs() Knobs {
 }
 
 type gen struct {
-	decoSlt   map[MKey]string // named slice variant a decorator declared a group with
-	reserved  map[MKey]bool   // keys that only a registration made from inside a body provides
-	plainDecl bool            // encode the leaves of declared objects as ordinary leaves (C15's alternative encoding)
-	focus     []MKey          // keys of the last deliberately rejected registration
-	t         *rapid.T
-	k         Knobs
-	m         *Model // predicted registrations
-	nextID    int
-	c         *Case
-	nscope    int
+	decoSlt      map[MKey]string // named slice variant a decorator declared a group with
+	reserved     map[MKey]bool   // keys that only a registration made from inside a body provides
+	plainDecl    bool            // encode the leaves of declared objects as ordinary leaves (C15's alternative encoding)
+	focus        []MKey          // keys of the last deliberately rejected registration
+	forceDecoKey *MKey           // genDecorate: first decorated key (genDecoSandwich)
+	t            *rapid.T
+	k            Knobs
+	m            *Model // predicted registrations
+	nextID       int
+	c            *Case
+	nscope       int
 }
 
 func (g *gen) pct(p int, label string) bool {
@@ -575,6 +578,9 @@ func (g *gen) errAndVariadic(f *Fn) {
 		if g.pct(12, "errt") {
 			f.ErrT = "iface"
 		}
+		if g.pct(g.k.PErr2, "err2") {
+			f.Err2 = true
+		}
 	}
 	if g.pct(g.k.PVariadic, "variadic?") {
 		f.Var = g.pickStr(g.k.Types, "vart")
@@ -984,7 +990,9 @@ func (g *gen) genDecorate(s int) (Op, bool) {
 	for i := 0; i < nkeys; i++ {
 		lbl := fmt.Sprintf("d%d", i)
 		var k MKey
-		if g.pct(g.k.PDecoOrphan, lbl+"orphan") {
+		if i == 0 && g.forceDecoKey != nil {
+			k = *g.forceDecoKey
+		} else if g.pct(g.k.PDecoOrphan, lbl+"orphan") {
 			u := g.universe()
 			k = u[g.pick(len(u), lbl+"ok")]
 			if !g.k.NoGroups && len(g.k.Groups) > 0 && g.pct(35, lbl+"orphangrp") {
@@ -1117,6 +1125,83 @@ func (g *gen) genDecorate(s int) (Op, bool) {
 		g.setAlt(len(g.c.Ops), altF, nil)
 	}
 	return op, true
+}
+
+// genDecoSandwich: on a path of scopes a > m > l (created if necessary) a key
+// visible from a is decorated at a, resolved from l, decorated again at m -
+// strictly between the first decorator and the consumer - and resolved from l
+// (and m) once more: whatever the first resolution left behind, consumers
+// below m must now see m's decorator.
+func (g *gen) genDecoSandwich(add func(Op)) bool {
+	var deep []int
+	for s := 0; s < g.nscope; s++ {
+		if g.m.Depth(s) >= 2 {
+			deep = append(deep, s)
+		}
+	}
+	if len(deep) == 0 {
+		// extend the deepest scope
+		d := 0
+		for s := 0; s < g.nscope; s++ {
+			if g.m.Depth(s) > g.m.Depth(d) {
+				d = s
+			}
+		}
+		for g.m.Depth(d) < 2 {
+			if g.nscope >= g.k.MaxScopes {
+				return false
+			}
+			name := fmt.Sprintf("s%d", g.nscope)
+			n := g.m.AddScope(d, name)
+			g.nscope++
+			add(Op{K: OpScope, S: d, Name: name})
+			d = n
+		}
+		deep = []int{d}
+	}
+	l := deep[g.pick(len(deep), "swl")]
+	anc := g.m.Anc(l) // l first, root last
+	mi := 1 + g.pick(len(anc)-2, "swm")
+	m := anc[mi]
+	a := anc[mi+1+g.pick(len(anc)-mi-1, "swa")]
+	singles, groups := g.keysFrom(a, false)
+	var k MKey
+	switch {
+	case len(groups) > 0 && (len(singles) == 0 || g.pct(65, "swgrp")):
+		k = groups[g.pick(len(groups), "swgk")]
+	case len(singles) > 0:
+		k = singles[g.pick(len(singles), "swsk")]
+	default:
+		return false
+	}
+	if g.m.NearestDeco(m, k, nil) != nil && g.m.NearestDeco(m, k, nil).Home == m {
+		return false
+	}
+	savedFocus, savedPF := g.focus, g.k.PFocus
+	defer func() { g.focus, g.k.PFocus, g.forceDecoKey = savedFocus, savedPF, nil }()
+	ask := func(s int, lbl string) {
+		g.focus, g.k.PFocus = []MKey{k}, 75
+		add(g.genInvoke(s))
+		g.focus, g.k.PFocus = savedFocus, savedPF
+	}
+	g.forceDecoKey = &k
+	if op, ok := g.genDecorate(a); ok {
+		add(op)
+	}
+	g.forceDecoKey = nil
+	ask(l, "swi1")
+	g.forceDecoKey = &k
+	op, ok := g.genDecorate(m)
+	g.forceDecoKey = nil
+	if !ok {
+		return true
+	}
+	add(op)
+	if g.pct(40, "swmid") {
+		ask(m, "swi2")
+	}
+	ask(l, "swi3")
+	return true
 }
 
 func (g *gen) anyDecoCycle() bool {
@@ -1362,6 +1447,11 @@ func GenCase(t *rapid.T, k Knobs) *Case {
 				g.focusOn(sops[len(sops)-1])
 			} else {
 				add(g.genProvide(g.pickScope("ps5")))
+			}
+		}},
+		{k.WDecoSandwich, func() {
+			if !g.genDecoSandwich(add) {
+				add(g.genProvide(g.pickScope("ps6")))
 			}
 		}},
 		{k.WDupDecorate, func() {
